@@ -484,7 +484,9 @@ func (cr *crashRunner) submit(s Script, img Image, r *rand.Rand) {
 			if fsx.Written <= fsx.Synced {
 				continue
 			}
-			cuts := map[int64]bool{fsx.Synced: true, fsx.Synced + 1: true, (fsx.Synced + fsx.Written) / 2: true, fsx.Written - 1: true}
+			cuts := map[int64]bool{fsx.Synced: true, fsx.Synced + 1: true, (fsx.Synced + fsx.Written) / 2: true, fsx.Written - 1: true,
+				// around the 8-byte length prefix of the first unsynced wal record
+				fsx.Synced + 7: true, fsx.Synced + 8: true, fsx.Synced + 9: true}
 			if cr.torn == "thorough" {
 				if fsx.Written-fsx.Synced <= 64 {
 					for c := fsx.Synced; c < fsx.Written; c++ {
